@@ -1,7 +1,7 @@
 """Generators for the model `apply` (C07/C01): three complete nodes fed the same committed requests."""
 from ..core import Case
 
-KINDS = [("cfgset", 30), ("cfgrm", 8), ("cfgfull", 6), ("nsset", 5), ("nsadd", 3), ("nsupd", 3), ("nsdel", 3),
+KINDS = [("cfgset", 30), ("cfgempty", 2), ("cfgrm", 8), ("cfgfull", 6), ("nsset", 5), ("nsadd", 3), ("nsupd", 3), ("nsdel", 3),
          ("tblset", 8), ("tblrm", 3), ("tblnext", 3), ("tblseq", 2), ("tblauto", 2), ("tbldrop", 1),
          ("seqnext", 6), ("seqrange", 4), ("seqset", 2), ("seqrm", 2),
          ("inst", 6), ("instupd", 4), ("instrm", 3), ("nodeaddr", 2), ("members", 2)]
@@ -137,6 +137,12 @@ def gen_restart(rng, tier):
         ops = ["start", "reqd R 1 1", "reqd R 2 2", "flush 10", "compact R"] + ["reqd R %d %d" % (j, j) for j in range(extra)]
         ops += ["flush 10", "dump", "restart R", "dump", "reqd R 3 3", "flush 10", "dump"]
         cases.append(Case("midblock-%d" % extra, ops, True, "boundary"))
+    # directed: a configuration of several MiB followed by further writes (its log record is larger than the steps in which
+    # a log file grows), then a restart that has to replay it, with and without a compaction in between
+    for name, mid in (("replayed", []), ("compacted-after", ["compact R"]), ("two", ["req cfgbig 9 2", "req cfgset 2 2"])):
+        ops = ["start", "req cfgset 0 1", "req cfgbig 1 1", "req cfgset 2 1", "req cfgset 3 4", "flush 10"] + mid + \
+              ["flush 10", "dump", "restart R", "dump", "req cfgset 4 4", "flush 10", "restart R", "restart F", "dump"]
+        cases.append(Case("large-value-" + name, ops, True, "boundary"))
     # directed: a user-created namespace that is also in use (it holds a configuration) is compacted and the node restarted
     for k in (1, 3):
         ops = ["start", "req nsset %d 7" % k, "req cfgset %d 2" % k, "req cfgset %d 5" % (k + 5), "flush 10", "dump", "compact R",
